@@ -263,6 +263,9 @@ func PrepareForPackager(
 			if destinationOccupied && presentContent.Type != TypeImplicitDir {
 				return nil, contentCollisionError(content, presentContent)
 			}
+			if presentContent, occupied := contentMap[otherKind(NormalizeAbsoluteDirPath(content.Destination))]; occupied {
+				return nil, contentCollisionError(content, presentContent)
+			}
 
 			err := addParents(contentMap, content.Destination, mtime)
 			if err != nil {
@@ -280,6 +283,9 @@ func PrepareForPackager(
 		case TypeRPMGhost, TypeSymlink, TypeRPMDoc, TypeRPMLicence, TypeRPMLicense, TypeRPMReadme, TypeDebChangelog:
 			presentContent, destinationOccupied := contentMap[NormalizeAbsoluteFilePath(content.Destination)]
 			if destinationOccupied {
+				return nil, contentCollisionError(content, presentContent)
+			}
+			if presentContent, occupied := contentMap[otherKind(NormalizeAbsoluteFilePath(content.Destination))]; occupied {
 				return nil, contentCollisionError(content, presentContent)
 			}
 
@@ -352,6 +358,14 @@ func isRelevantForPackager(packager string, content *Content) bool {
 func addParents(contentMap map[string]*Content, path string, mtime time.Time) error {
 	for _, parent := range sortedParents(path) {
 		parent = NormalizeAbsoluteDirPath(parent)
+		// a file (or symlink, ...) at the place of a parent directory
+		if c, ok := contentMap[otherKind(parent)]; ok {
+			return contentCollisionError(&Content{
+				Type:        "parent directory for " + path,
+				Destination: parent,
+			}, c)
+		}
+
 		// check for content collision and just overwrite previously created
 		// implicit directories
 		c, ok := contentMap[parent]
@@ -414,6 +428,11 @@ func addGlobbedFiles(
 		dst = NormalizeAbsoluteFilePath(dst)
 		presentContent, destinationOccupied := all[dst]
 		if destinationOccupied {
+			c := *origFile
+			c.Destination = dst
+			return contentCollisionError(&c, presentContent)
+		}
+		if presentContent, occupied := all[otherKind(dst)]; occupied {
 			c := *origFile
 			c.Destination = dst
 			return contentCollisionError(&c, presentContent)
@@ -525,11 +544,24 @@ func addTree(
 		if destinationOccupied && presentContent.Type != TypeImplicitDir {
 			return contentCollisionError(c, presentContent)
 		}
+		if presentContent, occupied := all[otherKind(c.Destination)]; occupied {
+			return contentCollisionError(c, presentContent)
+		}
 
 		all[c.Destination] = c.WithFileInfoDefaults(umask, mtime)
 
 		return nil
 	})
+}
+
+// otherKind returns the key under which an entry of the other kind (a file
+// instead of a directory or vice versa) at the same destination is stored:
+// directories are keyed with a trailing slash, everything else without.
+func otherKind(key string) string {
+	if strings.HasSuffix(key, "/") {
+		return NormalizeAbsoluteFilePath(key)
+	}
+	return NormalizeAbsoluteDirPath(key)
 }
 
 var ErrContentCollision = fmt.Errorf("content collision")
